@@ -10,24 +10,57 @@ TB = ('trusted: vlib/pyvc.py (own ast->z3 VC generator, cross-checked against CP
       'vlib/relang.py (own regex-language engine, every witness re-checked with re), vlib/spec (the reading of the '
       'statements), re._parser, z3 5.1.0; assumed contracts of os/re/bracex/lru_cache are listed in each evidence file')
 
+P_TXT = 'sidecar contracts on the real function bodies discharged by own VC generator (pyvc) + z3'
+L_TXT = 'compiler postcondition as bounded stand-in: exact regular-language decision per pattern (relang), bounded in the pattern only'
+B_TXT = 'bounded run-time contract check on generated trees / strings / histories (stand-in, never counted as proved)'
+
 CHECKS = {
-    # id: (level, technique, level_text, design_ref, thorough?)
-    'C01': ('other', 'sidecar contracts on the real functions discharged by own VC generator + z3 (call chain, finite POSIX/template lemmas); '
-            'compiler postcondition as bounded stand-in: exact regular-language decision per pattern',
-            'Glue obligations (fnmatch call chain, include-any/exclude-none loop, finite POSIX tables and regex templates) are discharged for '
-            'all inputs. The parser postcondition Lang(translate(p,f)) == Den(p,f) cannot be proved over all patterns with the tools present; it '
-            'is checked per pattern for ALL names by a decision procedure, bounded in the pattern only. Labelled bounded, not proved.', '5 C01'),
-    'C02': ('other', 'sidecar contracts discharged by own VC generator + z3 (glob._flag_transform, is_unix_style, NODIR finite lemmas); compiler postcondition as bounded '
-            'stand-in: exact regular-language decision per path pattern',
-            'Flag-algebra obligations are proved for all flag words; the path-pattern compiler postcondition must <= Lang(translate(p,f)) <= may is decided per pattern for ALL paths, '
-            'bounded in the pattern only. Labelled bounded, not proved.', '5 C02'),
-    'C03': ('other', 'sidecar contracts discharged by own VC generator + z3 (exclusion routes force DOTMATCH, hidden guards); per-pattern exact language decision on the hidden-name domain',
-            'Per pattern, the set of accepted hidden names/paths is decided exactly (an emptiness check for patterns without a written leading dot); bounded in the pattern. '
-            'Glue obligations proved for all inputs.', '5 C03'),
-    'C17': ('other', 'bit-vector contracts on the real flag functions discharged by z3 for all 2^64 flag words x both platforms, statement-level lemmas over the contracts; '
-            'language closure obligations per pattern',
-            'The mode-selection clause of C17 is a lemma over contracts proved on the real bodies (complete). Closure of the matched language under case/separator changes is exact per pattern, '
-            'bounded in the pattern.', '5 C17'),
+    'C01': ('other', f'{P_TXT} (fnmatch call chain, include-any/exclude-none with FULL match, finite POSIX/template lemmas); {L_TXT}',
+            'Glue obligations are discharged for all inputs. The parser postcondition Lang(translate(p,f)) == Den(p,f) cannot be proved over all patterns with the tools present; it '
+            'is decided per pattern for ALL names, bounded in the pattern only. Labelled bounded, not proved.', '5 C01'),
+    'C02': ('other', f'{P_TXT} (glob._flag_transform, is_unix_style, NODIR routing, finite NODIR-regex lemmas); {L_TXT}',
+            'Flag-algebra obligations are proved for all flag words; must <= Lang(translate(p,f)) <= may is decided per path pattern for ALL paths, bounded in the pattern.', '5 C02'),
+    'C03': ('other', f'{P_TXT} (exclusion routes force DOTMATCH, Glob negate_flags/NODOTDIR, _is_hidden, _glob_dir guards); per-pattern exact language decision on the hidden-name domain',
+            'Per pattern the set of accepted hidden names/paths is decided exactly (an emptiness check where no dot is written); walker guards are proved on the real bodies.', '5 C03'),
+    'C04': ('other', f'{P_TXT} (REALPATH prologue of _Match.match, _match_real, call chain); {B_TXT}: glob() vs globmatch(REALPATH) on generated trees',
+            'The REALPATH prologue (types, existence, separator completion, follow arguments) is proved; equality of glob() and globmatch(REALPATH) depends on the OS and on _fs_match '
+            'and is checked bounded on generated trees.', '5 C04'),
+    'C05': ('other', f'{P_TXT} (Glob.glob frame/dominance, _get_starting_paths, _glob_dir yield/recursion guards); {B_TXT}: glob() vs an independent specification walk',
+            'Local obligations of the walker are proved; walker completeness over all trees needs an inductive proof through three mutually recursive generators relative to an OS '
+            'contract - stated as contract, checked bounded.', '5 C05'),
+    'C06': ('other', f'{P_TXT} (follow_links / follow argument / _glob_dir recursion guard / os.walk followlinks); {B_TXT}: scandir counting and termination on trees with symlink cycles',
+            'The symlink guards are proved on the real bodies (termination relative to a finite real tree); listing discipline and termination are additionally measured on generated trees.', '5 C06'),
+    'C07': ('other', f'{P_TXT} (is_negative, no_negate_flags, routing of every expansion in compile_pattern/translate/_iter_patterns with loop invariants); bounded: splitter vs specification '
+            'splitter on exhaustive strings; list-level exact language decision', 'Routing and flag obligations are proved for all inputs; the splitter and the per-pattern meanings are bounded stand-ins.', '5 C07'),
+    'C08': ('other', f'{P_TXT} (translate and compile_pattern satisfy one routing contract, _compile, call chain); per-pattern exact language equality translate() vs the matcher\'s regexes',
+            'That translate and the matcher route and flag every expansion identically is proved; that _TRANSLATE does not change the language is decided per pattern for all names (bounded in the pattern).', '5 C08'),
+    'C09': ('other', f'{P_TXT} (escape/is_magic call chain); finite complete enumeration magic symbols within escaped set; per-string exact singleton-language decision',
+            'The finite part is complete; "escape(s) matches exactly s" is decided exactly per (string, flags), bounded in the string.', '5 C09'),
+    'C10': ('other', f'{P_TXT} (only PatternLimitException escapes the limit loops; TypeError contract); {B_TXT}: exhaustive/random pattern strings through every entry point',
+            'No-crash over all strings is not provable for the hand-written scanners with the tools present (stated in DESIGN.md); bounded exhaustive strings over focused alphabets.', '5 C10'),
+    'C11': ('other', f'{P_TXT}: limit accounting of compile_pattern, translate and Glob._iter_patterns with inductive loop invariants over ghost expansion counts, recursion replaced by contract, '
+            'pass-through of limit in every entry point, default values; + bounded replay on the real API',
+            'Every obligation of the limit clauses is discharged for all limits/counts (unbounded) on the real bodies; what remains assumed is bracex\'s own limit contract and the ghost-count '
+            'abstraction of expand(). Reported as other (not proof) because the bracex contract is read, not verified.', '5 C11'),
+    'C12': ('other', f'{P_TXT} (_format_path, Glob.glob dominance and dir_only, NODIR routing, TypeError, iglob==glob chain); {B_TXT}: well-formedness and root-independence on generated trees',
+            'Result formatting and exclusion dominance are proved; existence of results and equivalence of root_dir/dir_fd/cwd are OS properties, checked bounded.', '5 C12'),
+    'C13': ('other', f'{P_TXT} (seen-set contract of _is_unique, duplicate filter keys, uniqueness shortcut of _parse_patterns, exclusion dominance); {B_TXT}: multi-pattern glob vs per-pattern results',
+            'The data-structure contract of the seen set and the shortcut condition are proved; the union/concatenation clause over real trees is checked bounded.', '5 C13'),
+    'C14': ('other', f'{P_TXT} (_parse_flags, _compile_wildcard, _valid_file/_valid_folder/compare_directory, _walk routing and skipped counter, is_hidden); {B_TXT}: WcMatch vs an independent filtered walk',
+            'Per-entry predicates and routing are proved on the real bodies relative to os.walk\'s assumed contract; the whole-walk result is checked bounded on generated trees.', '5 C14'),
+    'C15': ('other', f'{P_TXT}: abort protocol of _walk under a havoc environment (any poll may see kill/reset), ghost state for promptness, routing, imatch/match, frame of _abort; + bounded replay at every abort point',
+            'All protocol obligations are discharged on the real bodies for every hook outcome and every abort point (sequential and asynchronous kill via havoc). Other-thread kill rests on '
+            'GIL atomicity (assumed); hence other, not proof.', '5 C15'),
+    'C16': ('other', f'{P_TXT} (_translate_flags, match/globmatch/full_match/glob/rglob call chain and flags); {B_TXT}: pathlib vs glob on generated trees',
+            'The view functions are proved to be what the statement says in terms of glob\'s API; equality of results over real trees is checked bounded.', '5 C16'),
+    'C17': ('other', f'{P_TXT}: bit-vector contracts for all 2^64 flag words x both platforms and statement-level lemmas over them; per-pattern closure obligations (inverse homomorphism product search)',
+            'Mode selection is proved completely; closure of the language under case / separator changes is exact per pattern, bounded in the pattern.', '5 C17'),
+    'C18': ('other', f'{P_TXT} (TypeError contract, type-symbolic is_negative); finite complete twin-constant lemmas; per-pattern language equality bytes vs str on 0..255; bounded API comparisons',
+            'Twin constants and tables are compared completely; bytes/str regex equality is exact per ASCII pattern; API-level equality is bounded.', '5 C18'),
+    'C19': ('other', f'frame obligations by complete AST scan (no process-wide mutable state, no mutable defaults, single typed lru_cache) + {P_TXT} (__eq__/__ne__/__hash__/__init__/reducers of matcher objects)',
+            'History independence is argued by a frame proof (nothing persists between calls except two assumed-transparent caches); thread schedules are not explored; hence other.', '5 C19'),
+    'C20': ('other', f'{P_TXT} (norm_pattern applied with the right arguments before expand in every route); bounded: norm_pattern vs an independent decoder on exhaustive strings; per-pattern language equality end to end',
+            'Call order is proved; the decoder itself is a regex substitution checked against an independent decoder on exhaustive short strings (bounded).', '5 C20'),
 }
 
 NOT_YET = 'check not built yet in this round (work in progress; see DESIGN.md 9 build order)'
